@@ -132,6 +132,10 @@ def run_mode(c: Dict[str, Any], mode: str) -> Dict[str, Any]:
         epi.append(lambda world: [o.do_close() for o in origins])
     elif ending == 'client_shut':
         epi.append(lambda world: client.do_shut())
+    elif ending == 'client_shut_early' and hasattr(client, 'shut_after_send'):
+        # the client half-closes right after its last request byte and keeps reading: its descriptor is readable (EOF) and
+        # writable at once while the reply is still queued
+        client.shut_after_send = True
     w.at_quiescence = epi
     w.schedule = list(c.get('schedule', []))
     K.run_mode(w, mode)
@@ -219,6 +223,8 @@ def cases(draw: Any) -> Dict[str, Any]:
     c['requests'] = reqs
     c['resp_size'] = draw(sizes)
     endings = ['none', 'client_close', 'client_shut']
+    if role == 'web' and all(q.get('to') == 'route' for q in reqs):
+        endings += ['client_shut_early', 'client_shut_early']
     if role in ('forward', 'reverse'):
         endings += ['origin_close', 'connect_refused', 'origin_close_after_reply']      # an origin that answers early and closes is a race by nature: C07 covers it per mode
     c['ending'] = draw(st.sampled_from(endings))
